@@ -237,6 +237,32 @@ CHECKS["C19"] = dict(
                "runs of the real dialogue and store histories validated by "
                "TLC (ProfileTrace.tla)"))
 
+CHECKS["C15"] = dict(
+    engine="TrainingSet", category="model_checking",
+    text=("TrainingSet.tla writes the loader's cleaning as three operators "
+          "over an extended-real alphabet with exact rationals (impute the "
+          "mean of the other zero-rated samples; drop rows with NaN together "
+          "with their response; replace +-inf by +-2 x largest finite "
+          "magnitude) and TLC checks on all 2x2 matrices that the "
+          "composition has no NaN/inf left, keeps rows paired with "
+          "responses and edits only documented cells. Conformance is "
+          "case-exhaustive in the thorough tier: all 373 248 matrices of 3 "
+          "rows x 2 features over {1, 2, 5, NaN, +inf, -inf} x responses "
+          "{0, 4} (quick: seeded 9 000 + 2 500 with other flag "
+          "combinations), plus 1-, 2- and 4-row sets, each written as a "
+          "real training-set directory (feature names requested unsorted) "
+          "and loaded with the real load_training_set; TLC compares every "
+          "output cell, the kept rows and the responses with the spec's "
+          "expectation. Sample weights: all 1092 response vectors of length "
+          "<= 6 over {0, 3, 10} against the rational Weight operator. Export "
+          "round trip on a real rating container, twice with a live "
+          "RateManager while the container is re-rated on disk."),
+    design_ref="5 (C15), 3.3",
+    note=TB + "Real outputs are mapped to rationals with denominator <= 1000.",
+    technique=("TLA+ operators over exact rationals evaluated by TLC on "
+               "every case of an exhaustively enumerated input space "
+               "(TrainingSetTrace.tla)"))
+
 NOT_APPLICABLE = {
     "C01": ("Recovery of ground-truth parameters to optimiser precision is "
             "numerical convergence of lmfit/MINPACK on real-valued data; it "
